@@ -85,6 +85,28 @@ def gen_valext():
     b = body_of("plugins_types/union.c", "lyb_union_print")
     need("lyb_union_print", b, [("member looked up again", "r=union_find_type(ctx,type_u,&tmp,0,0,NULL,NULL,&type_idx,NULL,&err);"),
                                 ("index then member value", "num=type_idx;num=htole64(num);memcpy(ret,&num,TYPE_IDX_SIZE);memcpy((char*)ret+TYPE_IDX_SIZE,pval,pval_len);")])
+    b = body_of("plugins_types/union.c", "union_store_type")
+    need("union_store_type", b, [
+        ("the member stores the original text with the kept format / prefix data / hints",
+         "rc=type->plugin->store(ctx,type,value,value_len,opts,format,prefix_data,subvalue->hints,subvalue->ctx_node,&subvalue->value,unres,err);"),
+        ("a member that answered LY_EINCOMPLETE is validated when the caller asks for it",
+         "if(validate&&(rc==LY_EINCOMPLETE)){rc=type->plugin->validate(ctx,type,ctx_node,tree,&subvalue->value,err);if(rc){type->plugin->free(ctx,&subvalue->value);}}returnrc;}")])
+    b = body_of("plugins_types/union.c", "lyplg_type_validate_union")
+    need("lyplg_type_validate_union", b, [
+        ("text formats: all members tried again with resolution", "if(!validated){rc=union_find_type(ctx,type_u,subvalue,0,1,ctx_node,tree,NULL,NULL,err);if(rc){subvalue->value=orig;returnrc;}}"),
+        ("canonical value of the member that holds the value now", "LY_CHECK_RET(lydict_insert(ctx,subvalue->value._canonical,0,&storage->_canonical));")])
+    b = body_of("plugins_types/leafref.c", "lyplg_type_store_leafref")
+    need("lyplg_type_store_leafref", b, [
+        ("stored by the plug-in of the target's type", "rc=type_lr->realtype->plugin->store(ctx,type_lr->realtype,value,value_len,options,format,prefix_data,hints,ctx_node,storage,unres,err);"),
+        ("require-instance: to be resolved", "if(type_lr->require_instance){returnLY_EINCOMPLETE;}else{returnLY_SUCCESS;}}")])
+    b = body_of("plugins_types/leafref.c", "lyplg_type_validate_leafref")
+    need("lyplg_type_validate_leafref", b, [
+        ("nothing to resolve without require-instance", "if(!type_lr->require_instance){returnLY_SUCCESS;}"),
+        ("resolved against the tree", "rc=lyplg_type_resolve_leafref(type_lr,ctx_node,storage,tree,")])
+    for fn, cb in (("lyplg_type_compare_leafref", "compare"), ("lyplg_type_sort_leafref", "sort")):
+        b = body_of("plugins_types/leafref.c", fn)
+        if b != "{returnval1->realtype->plugin->%s(ctx,val1,val2);}" % cb:
+            missing.append("%s: shape" % fn)
     b = body_of("plugins_types/union.c", "lyb_fill_subvalue")
     need("lyb_fill_subvalue", b, [("only the member named by the index", "ret=union_store_type(ctx,type_u,type_idx,subvalue,*options,0,NULL,NULL,unres,err);")])
     b = body_of("plugins_types/union.c", "lyplg_type_store_union")
